@@ -29,7 +29,9 @@ ABI = O.ABI
 
 
 def s_reg(rng, n):
-    k = rng.randrange(4)
+    k = rng.randrange(5)
+    if k == 4:
+        return hex(n)      # "a register written as number": the repository's own suite pins hex numbers (test_assemble_hex_register)
     if k == 0:
         return str(n)
     if k == 1:
